@@ -3,6 +3,7 @@ package main
 import (
 	"encoding/json"
 	"fmt"
+	"github.com/resgateio/resgate/server/rescache"
 	"io"
 	"net/http"
 	"net/http/httptest"
@@ -992,6 +993,48 @@ func (w *world) finalChecks() {
 			}
 			if got != want {
 				w.addViolation("C01", "not-converged", fmt.Sprintf("%s holds %s = %s, the service's state is %s", c.name, rid, got, want))
+			}
+		}
+	}
+	// C01 (cache level): every cached resource that is kept current (event subscription held, loaded,
+	// no re-fetch pending) equals the state the service last announced. Distinguishes a divergence
+	// of the cache itself from one of a client's copy only (the known findings D1/D17 are the latter).
+	if len(w.mq.outstanding()) == 0 && w.cacheFresh {
+		for _, e := range w.serv.VerifCache().VerifSnapshot() {
+			if !e.MQSub {
+				continue
+			}
+			name := e.Name
+			d := w.truth.defFor(name)
+			if d == nil || d.getErr != "" {
+				continue
+			}
+			check := func(r *rescache.VerifResSnap, nq string) {
+				if r == nil || r.Resetting || r.Value == "" || (r.State != 3 && r.State != 4) {
+					return
+				}
+				if (r.State == 4) != (d.kind == 'm') {
+					return // the simulated service once answered with the other resource type
+				}
+				tr := w.truth.get(name, nq)
+				if tr == nil || tr.deleted {
+					return
+				}
+				if got, want := absCached(r.Value), tr.contentAbs(); got != want {
+					q := ""
+					if nq != "" {
+						q = "?" + nq
+					}
+					w.addViolation("C01", "cache-not-converged", fmt.Sprintf("the cache holds %s%s = %s, the service's state is %s", w.absSubject(name), q, got, want))
+				}
+			}
+			if e.Base != nil && e.Base.Query == "" && !d.query {
+				check(e.Base, "")
+			}
+			if d.query {
+				for i := range e.Queries {
+					check(&e.Queries[i], e.Queries[i].Query)
+				}
 			}
 		}
 	}
